@@ -13,6 +13,8 @@
 #include <stdlib.h>
 #include <stdint.h>
 #include <errno.h>
+#include <limits.h>
+#include "hwloc/shmem.h"
 
 struct cctx {
   unsigned id;
@@ -114,12 +116,48 @@ static void c_cpuset_helpers(hwloc_topology_t t, struct cctx *cx) {
   HO(cx, hwloc_get_obj_inside_cpuset_by_type(t, s, HWLOC_OBJ_PU, 1));
   HO(cx, hwloc_get_obj_covering_cpuset(t, s));
   HO(cx, hwloc_get_cache_covering_cpuset(t, s));
+  HO(cx, hwloc_get_next_obj_inside_cpuset_by_type(t, s, HWLOC_OBJ_CORE, NULL));
+  HO(cx, hwloc_get_child_covering_cpuset(t, s, hwloc_get_root_obj(t)));
+  o = hwloc_get_obj_by_type(t, HWLOC_OBJ_PU, 1);
+  if (o) HU(cx, hwloc_get_obj_index_inside_cpuset(t, hwloc_topology_get_complete_cpuset(t), o));
+  { hwloc_bitmap_t pc = hwloc_bitmap_dup(hwloc_topology_get_topology_cpuset(t)); HU(cx, hwloc_bitmap_singlify_per_core(t, pc, 0)); HSET(cx, pc); hwloc_bitmap_free(pc); }
   o = hwloc_get_obj_by_type(t, HWLOC_OBJ_PU, 0);
   if (o) { r = hwloc_get_closest_objs(t, o, objs, 16); HU(cx, r); for (int i = 0; i < r; i++) HO(cx, objs[i]); }
   HO(cx, hwloc_get_obj_below_by_type(t, HWLOC_OBJ_PACKAGE, 0, HWLOC_OBJ_PU, 0));
   hwloc_cpuset_to_nodeset(t, s, ns); HSET(cx, ns);
   hwloc_cpuset_from_nodeset(t, s, ns); HSET(cx, s);
   hwloc_bitmap_free(s); hwloc_bitmap_free(ns);
+}
+static void c_type_predicates(hwloc_topology_t t, struct cctx *cx) {
+  hwloc_obj_type_t ty; union hwloc_obj_attr_u attr; hwloc_obj_t o = NULL; unsigned n = 0;
+  (void) t;
+  for (int a = HWLOC_OBJ_TYPE_MIN; a < HWLOC_OBJ_TYPE_MAX; a++) {
+    HU(cx, hwloc_obj_type_is_normal(a)); HU(cx, hwloc_obj_type_is_io(a)); HU(cx, hwloc_obj_type_is_memory(a));
+    HU(cx, hwloc_obj_type_is_cache(a)); HU(cx, hwloc_obj_type_is_dcache(a)); HU(cx, hwloc_obj_type_is_icache(a));
+    HU(cx, hwloc_compare_types(a, HWLOC_OBJ_CORE));
+    HU(cx, hwloc_type_sscanf(hwloc_obj_type_string(a), &ty, &attr, sizeof attr)); HU(cx, ty);
+  }
+  HU(cx, hwloc_type_sscanf("L2Cache", &ty, &attr, sizeof attr)); HU(cx, ty);
+  while ((o = hwloc_get_next_bridge(t, o)) && n++ < 20) { HU(cx, hwloc_bridge_covers_pcibus(o, 0, 0)); }
+  HO(cx, hwloc_get_pcidev_by_busidstring(t, "0000:00:00.0"));
+  HU(cx, hwloc_get_api_version());
+}
+static void c_topology_dup(hwloc_topology_t t, struct cctx *cx) {
+  hwloc_topology_t d;
+  int r = hwloc_topology_dup(&d, t);
+  HU(cx, r);
+  if (!r) { HU(cx, hwloc_topology_get_depth(d)); HU(cx, hwloc_get_nbobjs_by_type(d, HWLOC_OBJ_PU)); HSET(cx, hwloc_topology_get_allowed_cpuset(d)); hwloc_topology_destroy(d); }
+}
+static void c_shmem_get_length(hwloc_topology_t t, struct cctx *cx) {
+  size_t len = 0;
+  int r = hwloc_shmem_topology_get_length(t, &len, 0);
+  HU(cx, r); if (!r) HU(cx, len > 0);
+}
+static void c_diff_build(hwloc_topology_t t, struct cctx *cx) {
+  hwloc_topology_diff_t diff = NULL;
+  int r = hwloc_topology_diff_build(t, t, 0, &diff);      /* refreshes the distances and every memattr of both operands */
+  HU(cx, r); HU(cx, diff != NULL);
+  if (diff) hwloc_topology_diff_destroy(diff);
 }
 static void c_distrib(hwloc_topology_t t, struct cctx *cx) {
   hwloc_obj_t root = hwloc_get_root_obj(t);
@@ -218,6 +256,10 @@ static void hash_distances(hwloc_topology_t t, struct cctx *cx, int r, unsigned 
     HU(cx, hwloc_distances_obj_index(d[i], d[i]->objs[d[i]->nbobjs - 1]));
     hwloc_uint64_t v1 = 0, v2 = 0;
     HU(cx, hwloc_distances_obj_pair_values(d[i], d[i]->objs[0], d[i]->objs[1], &v1, &v2)); HU(cx, v1); HU(cx, v2);
+    /* transforms work on the caller's copy but consult the topology */
+    HU(cx, hwloc_distances_transform(t, d[i], HWLOC_DISTANCES_TRANSFORM_TRANSITIVE_CLOSURE, NULL, 0));
+    HU(cx, hwloc_distances_transform(t, d[i], HWLOC_DISTANCES_TRANSFORM_MERGE_SWITCH_PORTS, NULL, 0));
+    HU(cx, hwloc_distances_transform(t, d[i], HWLOC_DISTANCES_TRANSFORM_REMOVE_NULL, NULL, 0)); HU(cx, d[i]->nbobjs);
     hwloc_distances_release(t, d[i]);
   }
 }
@@ -326,6 +368,8 @@ static const struct consult_entry CONSULT[] = {
   { "os_index_lookup", c_os_index_lookup, 0 }, { "tree_walk", c_tree_walk, 0 }, { "ancestors", c_ancestors, 0 },
   { "cpuset_helpers", c_cpuset_helpers, 0 }, { "distrib", c_distrib, 0 }, { "io_iter", c_io_iter, 0 },
   { "topology_meta", c_topology_meta, 0 }, { "topology_check", c_topology_check, 0 },
+  { "type_predicates", c_type_predicates, 0 }, { "topology_dup", c_topology_dup, 0 }, { "shmem_get_length", c_shmem_get_length, 0 },
+  { "diff_build", c_diff_build, 0 },
   { "type_snprintf", c_type_snprintf, 0 }, { "info_queries", c_info_queries, 0 },
   { "set_getters", c_set_getters, 0 }, { "bitmap_queries", c_bitmap_queries, 0 }, { "cpukinds", c_cpukinds, 0 },
   { "distances_get", c_distances_get, 1 }, { "distances_get_by_depth", c_distances_get_by_depth, 1 },
